@@ -251,6 +251,14 @@ def cli_corpus():
         ("objects referring to each other are reported when the run ends",
          "class N { @tracked public qubit q; public N other = null; public constructor() -> N { } }\n"
          "function main() -> void { N a = new N(); N b = new N(); a.other = b; b.other = a; x(a.q); measure a.q; measure b.q; }", ["--shots=2"], {"N.q": {"0": 2, "1": 2}}),
+        ("objects of a class that only inherits its tracked field, referring to each other, are reported",
+         "class B { @tracked public qubit q; public constructor() -> B { } }\nclass D extends B { public D other = null; public constructor() -> D { super(); } }\n"
+         "function main() -> void { for (int i = 0; i < 2; i = i + 1) { D a = new D(); D b = new D(); a.other = b; b.other = a; x(a.q); measure a.q; measure b.q; } "
+         "int s = 0; for (int k = 0; k < 2000; k = k + 1) { s = s + k; } }", ["--shots=3"], {"D.q": {"0": 6, "1": 6}}),
+        ("a self-referring object of a class that only inherits its tracked field",
+         "class B { @tracked public qubit q; public constructor() -> B { } }\nclass D extends B { public D me = null; public constructor() -> D { super(); this.me = this; } }\n"
+         "function main() -> void { D a = new D(); x(a.q); measure a.q; a = null; for (int k = 0; k < 40; k = k + 1) { B t = new B(); measure t.q; } }", ["--shots=2"],
+         {"D.q": {"1": 2}, "B.q": {"0": 80}}),
         ("every declarator of a tracked declaration", "function main() -> void { @tracked qubit a, b; x(b); measure a; measure b; }", ["--shots=3"],
          {"qubit a": {"0": 3}, "qubit b": {"1": 3}}),
         ("destroy of a tracked register is refused", "function main() -> void { @tracked qubit[2] r; measure r; destroy r; }", ["--shots=2"], ("reject", "Semantic")),
